@@ -2,6 +2,7 @@ package sim
 
 import (
 	"crypto/sha256"
+	"strings"
 	"fmt"
 	"math/big"
 	"sort"
@@ -45,14 +46,37 @@ func expired(w *World, e *mhub2types.SendToExternal, now time.Time) bool {
 // C04 — an outgoing transfer is in exactly one place at any time.
 type C04 struct {
 	BaseOracle
+	extDone  map[string]string // chain/id -> batch key under which the external chain executed the transfer
 	maxID    map[string]uint64
 	terminal map[string]string // chain/id -> "refunded" | "executed"
 	userTx   map[string]string // chain/id -> tx hash of the user's MsgSendToExternal
 	pendingCancel map[string]bool
+	pendingBatch  *mhub2types.BatchTx
 }
 
 func (*C04) Property() string { return "C04" }
+// PreExtCall/OnExtCall: remember which transfers the external chain has really executed.
+func (o *C04) PreExtCall(w *World, c *ExtCall, ss *mhub2types.SignerSetTx, b *mhub2types.BatchTx, cc *mhub2types.ContractCallTx, sigs []ext.Sig) {
+	o.pendingBatch = b
+}
+func (o *C04) PreMinterCall(w *World, c *ExtCall, tx *ext.MTx, sigs [][]byte) { o.pendingBatch = nil }
+func (o *C04) OnExtCall(w *World, c *ExtCall) {
+	if c.Kind == "batch" && c.Err == nil {
+		b := o.pendingBatch
+		if b == nil && c.Chain == "minter" {
+			b = w.T().Cur.Batches["minter"][bkey(c.Info["token"], mustUint(c.Info["nonce"]))]
+		}
+		if b != nil {
+			for _, tx := range b.Transactions {
+				o.extDone[c.Chain+"/"+strconv.FormatUint(tx.Id, 10)] = bkey(b.ExternalTokenId, b.BatchNonce)
+			}
+		}
+	}
+	o.pendingBatch = nil
+}
+
 func (o *C04) Init(w *World) {
+	o.extDone = map[string]string{}
 	o.maxID = map[string]uint64{}
 	o.terminal = map[string]string{}
 	o.userTx = map[string]string{}
@@ -64,6 +88,22 @@ func (o *C04) place(w *World, s *Snap, at string) bool {
 		if len(s.PoolDup[ch]) > 0 {
 			w.Fail("C04", "one-place", "pool-duplicate", fmt.Sprintf("%s: transfer ids %v are indexed more than once in the pool (at %s)", ch, s.PoolDup[ch], at))
 			return false
+		}
+		for _, k := range sortedKeys(o.extDone) {
+			if !strings.HasPrefix(k, ch+"/") {
+				continue
+			}
+			id, _ := strconv.ParseUint(k[len(ch)+1:], 10, 64)
+			if _, inPool := s.Pool[ch][id]; inPool {
+				w.Fail("C04", "one-place", "executed-and-pooled", fmt.Sprintf("%s: transfer %d was paid out by the external chain (batch %s) and is in the unbatched pool again (at %s)", ch, id, o.extDone[k], at))
+				return false
+			}
+			for _, bk := range s.InBatch[ch][id] {
+				if bk != o.extDone[k] {
+					w.Fail("C04", "one-place", "executed-and-rebatched", fmt.Sprintf("%s: transfer %d was paid out by the external chain (batch %s) and is pending in batch %s (at %s)", ch, id, o.extDone[k], bk, at))
+					return false
+				}
+			}
 		}
 		for id, keys := range s.InBatch[ch] {
 			if len(keys) > 1 {
@@ -145,6 +185,10 @@ func (o *C04) AfterTx(w *World, r *TxResult) {
 	}
 	if r.Tx.Kind == "user_send" && r.Code == 0 {
 		w.St.Probe("nontrivial")
+	}
+	// the status query is keyed by the hub transaction: it speaks for a transfer only when the transaction
+	// created exactly one
+	if r.Tx.Kind == "user_send" && r.Code == 0 && (r.Tx.Meta["n"] == "1" || r.Tx.Meta["n"] == "") {
 		ch := r.Tx.Meta["chain"]
 		// the new id is the one that was not there before
 		for id := range t.Cur.Pool[ch] {
@@ -505,6 +549,24 @@ func (o *C13) gone(w *World, prev, cur *Snap, at string) {
 		if at == "C" {
 			// an applied execution removes exactly that batch and (eth/bsc) the older same-token ones; nothing else
 			for _, e := range execs {
+				hasOlder, hasOther := false, false
+				for _, b := range prev.Batches[ch] {
+					if b.ExternalTokenId == e.ExternalCoinId && b.BatchNonce < e.BatchNonce {
+						hasOlder = true
+					}
+					if b.ExternalTokenId != e.ExternalCoinId {
+						hasOther = true
+					}
+				}
+				if hasOlder {
+					w.St.Probe("execution-with-older-same-token-batch-pending")
+				}
+				if hasOther {
+					w.St.Probe("execution-with-other-token-batch-pending")
+				}
+				if hasOlder && hasOther {
+					w.St.Probe("execution-with-older-and-other-token-batches-pending")
+				}
 				for k, b := range prev.Batches[ch] {
 					_, still := cur.Batches[ch][k]
 					older := b.ExternalTokenId == e.ExternalCoinId && b.BatchNonce < e.BatchNonce
@@ -718,6 +780,19 @@ func (o *C12) AfterEnd(w *World) {
 			default:
 				crossWant[e.RefundChainId+"|"+e.RefundAddress+"|"+denom] = append(crossWant[e.RefundChainId+"|"+e.RefundAddress+"|"+denom], R)
 				w.St.Probe("cross-chain-refund")
+			}
+		}
+	}
+	// expiry is swept every block: nothing that is past its timeout may survive EndBlock in the pool
+	for _, ch := range Chains {
+		for id, e := range t.Cur.Pool[ch] {
+			if _, wasThere := t.PreEnd.Pool[ch][id]; !wasThere {
+				continue // re-pooled or created in this very EndBlock
+			}
+			w.St.Check("C12:expiry-due")
+			if expired(w, e, t.Cur.Time) {
+				w.Fail("C12", "expiry-due", "end-block", fmt.Sprintf("%s transfer %d (created %d, timeout %d ms) is past its timeout at block time %d but was neither refunded nor removed", ch, id, e.CreatedAt, w.Cfg.OutgoingTxTimeoutMs, t.Cur.Time.Unix()))
+				return
 			}
 		}
 	}
